@@ -751,6 +751,40 @@ def rule_r5(chk, prog):
                     chk.check('C12.R5', where, f'{desc}: push', False,
                               'children pushed for a leaf / unknown node',
                               loc=m.loc(loops[0]))
+        # no child is filtered out of the walk (count_exprs may skip
+        # leaves, which it does not count)
+        for c in calls_in(loops[0]):
+            if not (isinstance(c.func, ast.Attribute) and c.func.attr in (
+                    'extend', 'append', 'appendleft', 'extendleft')
+                    and c.args):
+                continue
+            a = c.args[0]
+            if isinstance(a, ast.Call) and call_name(a) in (
+                    'reversed', 'list', 'tuple') and a.args:
+                a = a.args[0]
+            if isinstance(a, ast.Call) and call_name(a) == 'filter':
+                chk.check('C12.R5', where, c, False,
+                          'children are filtered before being pushed: the '
+                          'walk does not visit every node', loc=m.loc(c),
+                          nontrivial=True)
+                continue
+            if not isinstance(a, (ast.ListComp, ast.GeneratorExp)):
+                continue
+            for g in a.generators:
+                tv = unparse(g.target)
+                for cond in g.ifs:
+                    ct = unparse(cond)
+                    ok = kind == 'count-lists' and ct in (
+                        f'not {tv}.is_leaf()', f'not {tv}.is_leaf() == True',
+                        f'{tv}.is_leaf() is False',
+                        f'{tv}.is_leaf() == False')
+                    chk.check('C12.R5', where, f'pushed children filtered '
+                              f'by "{ct}"', ok,
+                              f'children are pushed only if "{ct}": nodes '
+                              'failing the test (e.g. empty lists "()" for '
+                              'a length test) are never visited, the walk '
+                              'no longer covers every node exactly once',
+                              loc=m.loc(c), nontrivial=True)
         chk.floor('C12.R5', f'iteration paths of {fname}', len(paths), 2)
     # dfs/bfs: identical depth handling
     d, b = m.func('dfs'), m.func('bfs')
